@@ -163,7 +163,11 @@ fn check_program(prog: &GProg, globals: &BTreeMap<String, crate::cval::CVal>, so
                         d(json!({})),
                     ));
                 }
-                _ => return CaseOutcome::Fail(Failure::new(format!("{}:bad-run", sig_prefix), "poll bound or inconsistent graph".to_string(), d(json!({})))),
+                (LibRun::PollBound(_), _) | (_, LibRun::PollBound(_)) => {
+                    // long runs are C05's and C10's business: not compared here
+                    report.counters.push(("inconclusive:poll-bound".into(), 1));
+                }
+                _ => return CaseOutcome::Fail(Failure::new(format!("{}:bad-run", sig_prefix), "inconsistent graph".to_string(), d(json!({})))),
             }
         }
     }
